@@ -62,6 +62,21 @@ class BaseBoom(BaseException):
     pass
 
 
+def reach_tags(e: BaseException | None) -> str:
+    """tags (`den<d>`, `dex<d>`, `yield<d>`, `body`) of the harness's own exceptions that can be reached from `e` through
+    exception-group members, `__cause__` and `__context__`: what "reaches the caller" of a block"""
+    seen, todo, tags = [], [e], set()
+    while todo:
+        x = todo.pop()
+        if x is None or any(x is y for y in seen):
+            continue
+        seen.append(x)
+        if isinstance(x, (Boom, BaseBoom)) and x.args and isinstance(x.args[0], str):
+            tags.add(x.args[0])
+        todo += [x.__cause__, x.__context__, *getattr(x, "exceptions", ())]
+    return "+".join(sorted(tags)) or "-"
+
+
 def out_name(e: BaseException | None) -> str:
     if e is None:
         return "ok"
@@ -489,7 +504,7 @@ class Run:
                                 raise
                             self.ev(t, "bodyend", b, "ok", self.pending_cancel())
                 except BaseException as e:
-                    self.ev(t, "left", b, out_name(e), 1 if e is body_exc else 0, self.alive())
+                    self.ev(t, "left", b, out_name(e), 1 if e is body_exc else 0, self.alive(), reach_tags(e))
                     self.ev(t, "post", b, self.fingerprint())
                     raise
                 self.ev(t, "left", b, "ok", 1, self.alive())
